@@ -15,6 +15,7 @@ ReadOK == E.k = "read" =>
   /\ Sum(E.segs) = E.len
   /\ want = "ok" => /\ E.ok /\ E.same               \* same value as the contiguous read
                     /\ E.n = E.cn                    \* same reported byte count
+                    /\ E.cn >= 0 => E.cn = E.need   \* ... which is the number of bytes the value occupies
                     /\ E.consumed = E.need           \* same residual stream
   /\ want = "error" => ~E.ok                         \* a failure before the end of the value is never swallowed
 WriteOK == E.k = "write" =>
